@@ -386,6 +386,32 @@ def writeback_locality(ctx):
                    fact=f"key is {'the stored selection' if ok_key else show(key, 30)}; {vfact}",
                    why='a cell other than the one read / addressed is written', key=f"write-back key in {name}")
     floor(ctx, 'Slicer write-backs', nwrites, 5)
+    # zip() stops at the shorter sequence: where set() pairs the listed entries with the given values, a mismatch in
+    # number must have been refused before (otherwise the surplus wells silently keep their old contents)
+    sfi = sl.methods['set']
+    sff = ctx.flow(sfi.qualname)
+    nzip = 0
+    for lp in walk_no_nested(sfi.node):
+        if not (isinstance(lp, ast.For) and isinstance(lp.iter, ast.Call) and getattr(lp.iter.func, 'id', '') == 'zip'):
+            continue
+        if not any('self.slices' in unparse(a) for a in lp.iter.args):
+            continue
+        nzip += 1
+        st = sff.state_before(lp)
+        gated = False
+        for c in (facts_at(st) if st is not None else []):
+            if c.op != 'eq' or c.right is None or not c.fact.exc:
+                continue
+            txt = {show(c.left, 200), show(c.right, 200)}
+            sides = ' '.join(txt)
+            if 'values' in sides and ('slices' in sides or 'self.shape' in sides or 'self.size' in sides or 'shape' in sides):
+                gated = True
+        ctx.ob('C01.R3', sfi, lp.lineno, 'Slicer.set: values and listed entries are paired only when their numbers agree',
+               gated, fact='a refusing comparison of the two lengths / shapes dominates the zip' if gated else
+               'no length / shape comparison that raises on mismatch before the zip',
+               why='zip stops at the shorter sequence: surplus entries keep their old contents (or surplus values are dropped) '
+                   'without an error', key='zip without length gate in set')
+    ctx.count('zip_pairings_in_set', nzip)
     # apply is a read-modify-write of the array itself, entry by entry: every normal path stores f(self.array[K]) back
     # under K.  Going through get() first reads a *copy* for list selections (numpy fancy indexing), so nothing written
     # to it reaches the array; get() followed by set() reads every entry before any is written.
